@@ -3,11 +3,11 @@ C08 driver: parses the case lines that the harness executes against the real dri
 (`model` mode) or the specification oracle on an implementation trace (`judge` mode).
 
 Case lines (shared with harness/c08/c08.c):
-  script o<k> create|init|mod|act <op>;<op>;...   the n-th such line is the script of the n-th invocation of that hook of
+  script o<k> create|init|mod|act|id <op>;<op>;...   the n-th such line is the script of the n-th invocation of that hook of
                                               object k; all script lines come before the first command
   t <op>                                      master->do_op(op)   (top level)
   snap | probe | gc
-op syntax (comma separated):  ld,<file> | cl,<file> | mv,o<a>,o<d> | de,o<a> | ec,o<a> | dc,o<a> | ln,o<a>,<name> |
+op syntax (comma separated):  ld,<file> | cl,<file> | mv,o<a>,o<d> | mvs,o<a>,<file> | fis,<file> | pr,o<env>,o<t> | de,o<a> | ec,o<a> | dc,o<a> | ln,o<a>,<name> |
   fo,<file>[#<n>] | fl,<name> | aa,o<a>,<verb> | cmd,o<a>,<verb> | kp,o<a> | rd | err | mvarg | nop          <file> ::= b<k> | nx | bad
 -/
 import NV.Common.Proto
@@ -39,6 +39,9 @@ def parseOp (s : String) : Option Op :=
   | ["ld", b] => (parseBase b).map .ld
   | ["cl", b] => (parseBase b).map .cl
   | ["mv", a, d] => do some (.mv (← parseOid a) (← parseOid d))
+  | ["mvs", a, b] => do some (.mvs (← parseOid a) (← parseBase b))
+  | ["fis", b] => (parseBase b).map .fis
+  | ["pr", e, t] => do some (.pr (← parseOid e) (← parseOid t))
   | ["de", a] => (parseOid a).map .de
   | ["ec", a] => (parseOid a).map .ec
   | ["dc", a] => (parseOid a).map .dc
@@ -56,7 +59,7 @@ def parseOp (s : String) : Option Op :=
 
 def parseHook (s : String) : Option Hook :=
   if s == "create" then some .create else if s == "init" then some .init else if s == "mod" then some .mod
-  else if s == "act" then some .act else none
+  else if s == "act" then some .act else if s == "id" then some .id else none
 
 structure Parsed where
   scripts : List ((Nat × Hook) × List Op) := []      -- in file order
